@@ -16,6 +16,18 @@ func c01Variants(tier string) []variant {
 	return vs
 }
 
+// raceAndPlain is the thorough tier of the virtual-time checks C17 and C20. The race runtime keeps
+// a few KB for every goroutine ever started (measured: 300 000 empty synctest bubbles = 1.9 GB
+// resident under -race, 10 MB without; the first thorough run of C20 reached 18 GB per child and
+// ended inconclusive), so the millions of cases of the thorough bounds run in a plain build and
+// the race build repeats the quick-size workload four times with GOMAXPROCS 16/4/2/1.
+func raceAndPlain() []variant {
+	return []variant{
+		{Name: "race", Race: true, Shards: 4, Procs: []int{16, 4, 2, 1}, Env: []string{"VERIF_BOUNDS=quick"}},
+		{Name: "plain", Shards: 2, Procs: []int{16, 3}},
+	}
+}
+
 func init() {
 	reg(&propCfg{ID: "C02", Pkg: "./props/c02", Variants: func(tier string) []variant {
 		vs := []variant{{Name: "tracked", Shim: "tracked", Run: "^TestProp$", Shards: 16, Env: []string{"GOMAXPROCS=4"}}}
@@ -102,20 +114,20 @@ func init() {
 		Assumptions: []string{"the fake clock of testing/synctest is the time source the library reads (time.Now/Ticker)", "hook: cache.VerifStopCleanup (tag verif) ends the cleanup goroutine at the end of each case", "not asserted: whether Count/List include expired-but-unpurged entries, Delete's result on such an entry, behaviour exactly at a deadline", "concurrent half: expired entries are created in the sequential initial state with a 1 ns lifetime and the call returns only after the wall clock passed it; entries stored by the concurrent calls never expire, so no recorded result depends on when a call ran; interleavings are those the runtime + seeded delays produce"}})
 	reg(&propCfg{ID: "C17", Pkg: "./props/c17", Variants: func(tier string) []variant {
 		if tier == "thorough" {
-			return []variant{{Name: "race", Race: true, Shards: 4, Procs: []int{16, 4, 2, 1}}}
+			return raceAndPlain()
 		}
 		return []variant{{Name: "race", Race: true, Shards: 1}}
 	},
-		Level:       "held on every executed case: callers {1,2,4,8,16} x keys {1,2,3} x latency {0,10ms,1s} x outcome {value,error,error-then-value,item+error,item+error-then-value} x expiry {never,25ms} x 4 start patterns x 12 (thorough 120, GOMAXPROCS varied) repetitions inside testing/synctest bubbles under the race detector, plus every sequential call/advance pattern up to length 5 (6) against an exact model; in-flight counter and virtual-time execution log inside the supplied function",
+		Level:       "held on every executed case: callers {1,2,4,8,16} x keys {1,2,3} x latency {0,10ms,1s} x outcome {value,error,error-then-value,item+error,item+error-then-value} x expiry {never,25ms} x 4 start patterns x 12 repetitions inside testing/synctest bubbles under the race detector (thorough: 4 race-build children with GOMAXPROCS 16/4/2/1 at these bounds, plus 120 repetitions in a plain build), plus every sequential call/advance pattern up to length 5 (6) against an exact model; in-flight counter and virtual-time execution log inside the supplied function",
 		Technique:   "in-callback monitor (in-flight counter + execution log) and caller-side log in virtual time (testing/synctest), race detector on",
 		Assumptions: []string{"schedules are those the Go runtime produces inside the bubble (repetitions, GOMAXPROCS varied in the thorough tier); not exhaustive", "not asserted: that a caller which began before the value was cached does not recompute (lookup-then-singleflight window)", "cache.Items are minted through a separate cache because Item has no exported constructor"}})
 	reg(&propCfg{ID: "C20", Pkg: "./props/c20", Variants: func(tier string) []variant {
 		if tier == "thorough" {
-			return []variant{{Name: "race", Race: true, Shards: 4, Procs: []int{16, 4, 2, 1}}}
+			return raceAndPlain()
 		}
 		return []variant{{Name: "race", Race: true, Shards: 1}}
 	},
-		Level:       "held on every executed case: Delay with Stop at instants around the delay; all debounce scripts up to length 4 (thorough 5) over call/burst/cancel x 4 gaps x 2 waits plus random bursts of 1..50 calls; all throttle scripts up to length 4 (5) over Call/burst x 4 gaps x 7 consumer arrangements x trailing on/off x period 5ms (thorough: also 50ms) plus random scripts, debounced functions that themselves take 0.6/1.7 waits, Calls and Next after Cancel; executed in testing/synctest bubbles under the race detector with exact virtual timestamps; plus the throttle on the REAL clock under a storm of triggers with permissions taken in pairs bracketed by monotonic clock readings (bracket < period = violation, one-sided and load-proof; 7 (thorough 72) runs of 1.2 (5) s)",
+		Level:       "held on every executed case: Delay with Stop at instants around the delay; all debounce scripts up to length 4 (thorough 5) over call/burst/cancel x 4 gaps x 2 waits plus random bursts of 1..50 calls; all throttle scripts up to length 4 (5) over Call/burst x 4 gaps x 7 consumer arrangements x trailing on/off x period 5ms (thorough: also 50ms) plus random scripts, debounced functions that themselves take 0.6/1.7 waits, Calls and Next after Cancel; executed in testing/synctest bubbles under the race detector with exact virtual timestamps (thorough: the larger bounds run in a plain build, the race build repeats the quick bounds with GOMAXPROCS 16/4/2/1); plus the throttle on the REAL clock under a storm of triggers with permissions taken in pairs bracketed by monotonic clock readings (bracket < period = violation, one-sided and load-proof; 7 (thorough 72) runs of 1.2 (5) s)",
 		Technique:   "timestamping callbacks + consumer log in virtual time (testing/synctest), race detector on; one-sided bracketing of permission pairs on the real clock under a trigger storm",
 		Assumptions: []string{"the fake clock of testing/synctest is the time source the library reads (time.AfterFunc/Since/Now)", "nothing is asserted at exact equality (gap == wait, delta == period): scripts avoid it", "schedules are those the Go runtime produces inside the bubble; thorough tier repeats with varied GOMAXPROCS", "throttle liveness is asserted only for the trailing configuration (as the property states)", "the real-clock monitor can only catch what the real timers and the scheduler make happen within its run time (a window of a few microseconds around a late timer callback was hit in about 4 of 5 quick runs on the loaded machine); its verdict never depends on the load"}})
 	reg(&propCfg{ID: "C04", Pkg: "./props/c04", Variants: simple(false),
